@@ -1,4 +1,5 @@
 pub mod normalize;
+pub mod prog;
 pub mod receiver;
 pub mod values;
 pub mod wire;
@@ -40,6 +41,7 @@ pub fn by_name(name: &str) -> Option<Box<dyn Suite>> {
         "normalize" => Box::new(normalize::Normalize),
         "wire" => Box::new(wire::Wire),
         "receiver" => Box::new(receiver::Receiver),
+        "prog" => Box::new(prog::Prog),
         _ => return None,
     })
 }
